@@ -178,3 +178,5 @@ for _p in ("C08", "C10"):
 for _p in ("C10", "C12"):
     REG[_p]["technique"] += (" + StartMethod.tla (what a worker needs travels in its task: holds under fork and spawn) bound by real-pool runs with workers "
                              "started by 'spawn'")
+REG["C09"]["technique"] += (" + trace validation at scale: pestle on random nested meshes with the levels' indicator fields, the per-level volumes (in lattice cells) "
+                            "judged line by line by spec/trace/CoverTrace.tla against Mesh!IntegralCells")
